@@ -40,7 +40,7 @@ def frag(fn_name, new_name, aty, end, gate, exp, hi):
 
 UNIT = Unit(
     name="U-DEPENV",
-    properties=["C16"],
+    properties=["C16", "C14"],
     rules=["attrs", "fmtmsg", "ok_or_else_q", "for_index"],
     describe="pipeline::typecheck_packages / typecheck_with_packages_and_results (fragments of the per-package loop): the dependency "
              "environments and HIR interfaces handed to the type checker of a package have exactly the package's DIRECT imports as keys, "
